@@ -190,6 +190,10 @@ func main() {
 		os.Exit(replay(pos[1]))
 	case "inventory":
 		inventory(pos[1])
+	case "e1dump":
+		e1dump(pos[1], pos[2], len(pos) > 3)
+	case "callees":
+		calleeInventory(pos[1])
 	case "selftest":
 		os.Exit(selftest(pos[1:]))
 	default:
